@@ -16,6 +16,10 @@ PROPS = {
                        explanation="C06_fresh_after_rest / C06_fresh_after_release_all / C06_no_memory: a bisimulation (MapperRefire.v: the absorbed-key list matters only through absorbed keys still held on the input, the absorbing trigger only while there is one, the repeat trigger never) proves that after every history ending at rest, and after every release-all, the responses (events and repeat instruction) to EVERY continuation equal a fresh mapper's; on the real code every rest node of the explored transition graph is compared with the initial node by a product search over all continuations (clause C06), and the FULL observation ties the model to the code"),
     "C07": mapper_prop(["EVENTS"], ["C07"],
                        explanation="C07_no_repeatable_key_held from Inv + fire_facts for every accepted layout and history; extracted checkers K_C07_held / K_C07_pressed run on the real outputs"),
+    "C08": mapper_prop(["EVENTS"], ["C08"],
+                       explanation="C08a/b/c/d and C08_checker_silent_on_model are proved for every accepted layout in the class K1 (absorbing mappings are key-producing) and K2 (a mapping not ending in a non-modifier outputs only modifiers), every history and every later press, from the invariant J (MapperAbsorb.v) between a history ghost (who absorbed what, on which trigger, not released or pressed since) and the mapper state; outside the class the statement is refuted (C08a_refuted_outside_K1, C08b_refuted_outside_K2: recorded findings, KNOWN_FINDINGS.txt). The extracted checker c08_check runs on the real outputs along every explored history (the ghost is part of the product node); hits in layouts outside the class are reported as KNOWN-FINDING, inside as VIOLATION",
+                       assumptions=["the layout family and the bound on simultaneously held keys limit the correspondence, not the theorems",
+                                    "which mapping the real code fired is not observable: clauses C08.fires / C08.refire are decided from the specification's choice on edges where the real events equal the model's (class EVENTS ties them), clause C08.held from the real events alone"]),
     "C09": mapper_prop(["REPEAT"], ["C09"],
                        explanation="C09_repeat_exact is proved for every layout, state and event; the REPEAT observation of the real mapper is compared with the model on every explored transition"),
     "C19": mapper_prop(["EVENTS"], ["C19"],
